@@ -350,7 +350,8 @@ def real_roundtrips(chk: Check, tier: str, models: list[tuple[str, Any]]) -> Non
     pool = K.expression_pool()
     by_class: dict[str, list] = {}
     for label, x in pool:
-        by_class.setdefault(label.split("|")[0], []).append((label, x, K.roundtrip_same(x)))
+        # results of doit() are their own group: <Class>.doit()
+        by_class.setdefault(label.split("|")[0] + (".doit()" if label.endswith(".doit_result") else ""), []).append((label, x, K.roundtrip_same(x)))
     for cname, entries in by_class.items():
         fails = [dict(r, case=label) for label, _, r in entries if r["reproduced"]]
         chk.struct(f"pickle.same_process[{cname}]", not fails, f"{K.qual(type(entries[0][1]))}.__getnewargs__",
